@@ -492,3 +492,111 @@ def poly_of(node: ast.AST, atom: Callable[[ast.AST], Optional[Poly]]) -> Poly:
                 and 0 <= node.right.value <= 8:
             return poly_of(node.left, atom) ** node.right.value
     raise NoValue(un(node))
+
+
+# --------------------------------------------------------------------------- private helpers: inlining and ownership
+def set_parents(root: ast.AST):
+    for node in ast.walk(root):
+        for child in ast.iter_child_nodes(node):
+            child._parent = node  # type: ignore[attr-defined]
+    number_nodes(root)
+    return root
+
+
+def number_nodes(root: ast.AST):
+    """Program-order sequence numbers (pre-order) - line numbers are not an order after inlining."""
+    counter = [0]
+
+    def visit(n):
+        n._seq = counter[0]  # type: ignore[attr-defined]
+        counter[0] += 1
+        for ch in ast.iter_child_nodes(n):
+            visit(ch)
+    visit(root)
+
+
+def seq(node) -> int:
+    return getattr(node, "_seq", getattr(node, "lineno", 0) * 1000 + getattr(node, "col_offset", 0))
+
+
+def class_method(repo, class_qual: str, name: str, depth: int = 0):
+    """Method `name` of a class, following base classes of the same module."""
+    cls = repo.cls(class_qual)
+    for st in cls.body:
+        if isinstance(st, ast.FunctionDef) and st.name == name:
+            return st
+    if depth < 4:
+        module = class_qual.split(".")[0]
+        for b in cls.bases:
+            bq = f"{module}.{un(b)}"
+            if repo.has(bq) and isinstance(repo.lookup(bq), ast.ClassDef):
+                m = class_method(repo, bq, name, depth + 1)
+                if m is not None:
+                    return m
+    return None
+
+
+def inline_self_calls(repo, class_qual: str, fn: ast.FunctionDef, depth: int = 2) -> ast.FunctionDef:
+    """Copy of a method in which statement-level calls `self._helper(a, b)` of private helpers of the same class
+    (hierarchy) are replaced by the helper's body with the parameters substituted (inlining bound `depth`).
+    Only helpers that are plain statement lists without a value-returning `return` are inlined."""
+    self_name = params(fn)[0] if params(fn) else "self"
+
+    def expand(stmts, level):
+        out = []
+        for st in stmts:
+            st = clone(st)
+            for fld in ("body", "orelse", "finalbody"):
+                if hasattr(st, fld) and isinstance(getattr(st, fld), list):
+                    setattr(st, fld, expand(getattr(st, fld), level))
+            call = st.value if isinstance(st, ast.Expr) and isinstance(st.value, ast.Call) else None
+            if call is not None and isinstance(call.func, ast.Attribute) and un(call.func.value) == self_name \
+                    and call.func.attr.startswith("_") and not call.func.attr.startswith("__") and level < depth \
+                    and not call.keywords and not any(isinstance(a, ast.Starred) for a in call.args):
+                helper = class_method(repo, class_qual, call.func.attr)
+                if helper is not None and not any(isinstance(n, ast.Return) and n.value is not None for n in walk_shallow(helper)) \
+                        and not helper.decorator_list:
+                    hps = params(helper)
+                    if len(hps) == len(call.args) + 1:
+                        mapping = {hps[0]: ast.Name(id=self_name, ctx=ast.Load())}
+                        mapping.update({p: a for p, a in zip(hps[1:], call.args)})
+                        body = [b for b in helper.body if not (isinstance(b, ast.Expr) and isinstance(b.value, ast.Constant))
+                                and not isinstance(b, ast.Return)]
+                        inlined = [subst(b, mapping) for b in body]
+                        for b in inlined:
+                            for n in ast.walk(b):
+                                if hasattr(n, "lineno"):
+                                    n.lineno = st.lineno
+                        out.extend(expand(inlined, level + 1))
+                        continue
+            out.append(st)
+        return out
+    new = clone(fn)
+    new.body = expand(fn.body, 0)
+    set_parents(new)
+    new._parent = None  # type: ignore[attr-defined]
+    return new
+
+
+def private_helper_owners(repo, accepted: set) -> set:
+    """Qualified names of private methods/functions all of whose call sites lie in `accepted` functions (closed
+    transitively): such a helper is part of its callers for who-may-write / who-may-read rules."""
+    funcs = list(repo.all_functions())
+    owners = set(accepted)
+    changed = True
+    while changed:
+        changed = False
+        for mname, qual, fn in funcs:
+            name = qual.split(".")[-1]
+            if qual in owners or not name.startswith("_") or name.startswith("__"):
+                continue
+            sites = []
+            for m2, q2, f2 in funcs:
+                for c in walk_shallow(f2):
+                    if isinstance(c, ast.Call) and ((isinstance(c.func, ast.Attribute) and c.func.attr == name)
+                                                    or (isinstance(c.func, ast.Name) and c.func.id == name)):
+                        sites.append(q2)
+            if sites and all(s_ in owners for s_ in sites):
+                owners.add(qual)
+                changed = True
+    return owners
